@@ -829,7 +829,14 @@ func (env *SpecEnv) call(x ECall) SpecVal {
 			env.fail("has of non-map")
 		}
 		heap, ms := g.so.mapHeapFor(mt)
-		return SpecVal{fmt.Sprintf("(select (%s.dom (select %s %s)) %s)", ms, env.heapT(env.cur, heap), v.T, k.T), "Bool", nil}
+		return SpecVal{fmt.Sprintf("(and (not (= %s 0)) (select (%s.dom (select %s %s)) %s))", v.T, ms, env.heapT(env.cur, heap), v.T, k.T), "Bool", nil}
+	case "wasallocated":
+		// wasallocated(e): e (evaluated now) denotes an object that already existed in the old state
+		if env.old == nil {
+			env.fail("wasallocated() needs an old state")
+		}
+		v := env.tr(x.Args[0])
+		return SpecVal{fmt.Sprintf("(alive %s %s)", v.T, env.old.nextRef), "Bool", nil}
 	case "allocated":
 		v := env.tr(x.Args[0])
 		nr := env.cur.nextRef
